@@ -17,6 +17,7 @@ import re
 from . import hirq as H
 from . import wire as W
 from .appendchain import Chain
+from . import oblig_rules as OR
 from .c07 import chain_common
 from .engine import VERIF
 
@@ -46,6 +47,7 @@ def run(ctx):
             by_variant = {}
             for p in sp:
                 v = None
+                binds = []
                 for cd in p.conds:
                     if cd.kind == "match" and H.local_name(cd.scrut) == "self":
                         v = (H.pat_ctor(cd.pat) or "?").split("::")[-1]
@@ -140,3 +142,5 @@ def run(ctx):
                             good = good and ln == f["name"] and lid in c.A.param_ids
                 ctx.oblige("C09|new|fields", good, "register::Response::new does not store each argument in its own field", cfg=cfg, where=fn["sp"])
         ctx.floor("append sites in Response::serialize", n_sites, 3, cfg=cfg)
+        # "never panics": obligations in the /repo instances reachable from ctap1::Response::serialize
+        OR.check_root(ctx, F, cfg, "C09", "ctap1::Response::serialize@usize:1024", what="while encoding a U2F response")
